@@ -901,6 +901,14 @@ func (env *SpecEnv) call(x *SExpr) (sval, error) {
 		}
 		e.famSort["Chan.closed"] = arraySort(SInt, SBool)
 		return sval{sel(e.family(env.cur, "Chan.closed", arraySort(SInt, SBool)), ch.t, SBool), types.Typ[types.Bool]}, nil
+	case "chancap":
+		// ghost: the capacity the channel was made with (0: every send waits for its receive)
+		ch, err := env.eval(args[0])
+		if err != nil {
+			return sval{}, err
+		}
+		e.famSort["Chan.cap"] = arraySort(SInt, SInt)
+		return sval{sel(e.family(env.f.entry, "Chan.cap", arraySort(SInt, SInt)), ch.t, SInt), types.Typ[types.Int]}, nil
 	case "lockstate":
 		// the ghost state of all mutexes (for "leaves every mutex as it found it")
 		e.famSort["Mutex.locked"] = arraySort(SInt, SBool)
